@@ -59,7 +59,7 @@ COMPONENTS = {
 
 
 def load_known_findings(prop_id):
-    path = os.path.join(HERE, "known_findings.json")
+    path = os.environ.get("VERIF_KNOWN_FINDINGS", os.path.join(HERE, "known_findings.json"))  # (override: self-test)
     if not os.path.exists(path):
         return []
     with open(path, encoding="utf-8") as stream:
